@@ -64,7 +64,11 @@ where
             }
         }
     }
-    Ok(Pubkey::find_program_address(&pda_seeds, program_id).0)
+    // `find_program_address` panics when the seeds cannot form a PDA (a seed
+    // longer than 32 bytes or more than 16 seeds): report an error instead
+    Pubkey::try_find_program_address(&pda_seeds, program_id)
+        .map(|(address, _)| address)
+        .ok_or(ProgramError::InvalidSeeds)
 }
 
 /// Resolve a pubkey from a pubkey data configuration.
